@@ -44,6 +44,7 @@ fn main() {
     let mut view = String::from("release");
     let mut out = String::new();
     let mut map = String::new();
+    let mut raw: Vec<String> = vec![];
     let mut i = 1;
     while i < args.len() {
         match args[i].as_str() {
@@ -53,9 +54,22 @@ fn main() {
             "--view" => { view = args[i + 1].clone(); i += 2; }
             "--out" => { out = args[i + 1].clone(); i += 2; }
             "--map" => { map = args[i + 1].clone(); i += 2; }
+            "--raw" => { raw.push(args[i + 1].clone()); i += 2; }
             "--lenient" => { rewrite::LENIENT.store(true, std::sync::atomic::Ordering::Relaxed); i += 1; }
             other => die(&format!("unknown argument {}", other)),
         }
+    }
+    if !raw.is_empty() {
+        // Kani units: the ORIGINAL source text of the selected items, unchanged (only located and copied)
+        let idx = index::Index::build(&format!("{}/src", repo));
+        let mut text = String::new();
+        for sel in &raw {
+            let t = idx.raw_item(sel);
+            text.push_str(&t);
+            text.push_str("\n\n");
+        }
+        std::fs::write(&out, &text).unwrap_or_else(|e| die(&format!("write {}: {}", out, e)));
+        return;
     }
     if out.is_empty() || specs.is_empty() {
         die("need --spec and --out");
